@@ -1276,6 +1276,20 @@ def cors_rules(A, rule):
                 pv = unawait(p.value)
                 apps = [txt(x) for x in pv.elts] if isinstance(pv, ast.List) else None
                 ok = apps in ([], [exp1], [exp1, exp2])
+                # ... under exactly these conditions on the request
+                ga_ = set(v.guard_atoms())
+                both = ("'wsgi.url_scheme' in environ", True) in ga_ and \
+                    ("'HTTP_HOST' in environ", True) in ga_
+                fwd = ("'HTTP_X_FORWARDED_PROTO' in environ", True) in ga_ or \
+                    ("'HTTP_X_FORWARDED_HOST' in environ", True) in ga_
+                nofwd = ("'HTTP_X_FORWARDED_PROTO' in environ", False) in ga_ and \
+                    ("'HTTP_X_FORWARDED_HOST' in environ", False) in ga_
+                if ok and apps == [exp1, exp2]:
+                    ok = both and fwd
+                elif ok and apps == [exp1]:
+                    ok = both and nofwd
+                elif ok:
+                    ok = not both
                 if not ok:
                     rv = rv + ' with ' + repr(apps)
             A.check(ok, rule + '.allowed-set', '%s: the allowed set is %s' % (what, {
@@ -1327,6 +1341,22 @@ def cors_rules(A, rule):
                 rule + '.credentials', 'Allow-Credentials is emitted iff cors_credentials is '
                 'enabled', A.site(ch), key='cors-credentials', detail=v.describe(),
                 behaviour='credentials are allowed although disabled')
+        acam = 'Access-Control-Allow-Methods' in names
+        A.check(acam == (("environ['REQUEST_METHOD'] == 'OPTIONS'", True) in ga) and
+                (not acam or names['Access-Control-Allow-Methods'] == "'OPTIONS, GET, POST'"),
+                rule + '.preflight', 'Allow-Methods (OPTIONS, GET, POST) answers exactly the '
+                'OPTIONS requests', A.site(ch), key='cors-acam', detail=v.describe(),
+                behaviour='a preflight is answered without (or a plain request with) the '
+                          'allowed methods')
+        acah = 'Access-Control-Allow-Headers' in names
+        A.check(acah == (("'HTTP_ACCESS_CONTROL_REQUEST_HEADERS' in environ", True) in ga) and
+                (not acah or names['Access-Control-Allow-Headers'] ==
+                 "environ['HTTP_ACCESS_CONTROL_REQUEST_HEADERS']"),
+                rule + '.preflight', 'Allow-Headers echoes Access-Control-Request-Headers '
+                'exactly when the request carries it', A.site(ch), key='cors-acah',
+                detail=v.describe(),
+                behaviour='a preflight that names request headers is answered without them: the '
+                          'browser blocks the actual request')
         extra = set(names) - {'Access-Control-Allow-Origin', 'Access-Control-Allow-Credentials',
                               'Access-Control-Allow-Methods', 'Access-Control-Allow-Headers'}
         A.check(not extra, rule + '.headers', 'only the four CORS headers are produced',
@@ -2570,6 +2600,27 @@ def _config_slice(A, fi, word, params):
     return _slice_func(A, fi, stmts, 'cfg_' + word, params)
 
 
+def transports_value_ok(expr, ev, label, valid):
+    """Is expr the stored transports value for the abstract case `label` ('None', 'one
+    transport name', 'a list of names')?  `valid`: accepted texts of the list of valid names."""
+    val_ = _py_select(expr, ev)
+    if label == 'None':
+        # nothing configured: every valid transport
+        return txt(val_ if val_ is not None else expr) in tuple(valid) + tuple(
+            'None or ' + x for x in valid)
+    # configured: the valid names among the configured ones, as a list
+    cand = val_ if val_ is not None else unawait(expr)
+    if isinstance(cand, ast.BoolOp) and isinstance(cand.op, ast.Or) and \
+            txt(cand.values[-1]) in valid:
+        cand = cand.values[0]
+    src = '[transports]' if label.startswith('one') else 'transports'
+    return isinstance(cand, ast.ListComp) and len(cand.generators) == 1 and \
+        txt(cand.generators[0].iter) == src and \
+        txt(cand.elt) == txt(cand.generators[0].target) and \
+        [txt(i) for i in cand.generators[0].ifs] in [
+            ['%s in %s' % (txt(cand.elt), x)] for x in valid]
+
+
 def config_rules(A, rule, which=('transports', 'cors')):
     fi = A.func('base_server.BaseServer.__init__')
     bs = A.model.cls('base_server.BaseServer')
@@ -2603,24 +2654,8 @@ def config_rules(A, rule, which=('transports', 'cors')):
                 v = PV(p)
                 wr = [e.expr for e in v.ev if e.kind == 'write' and
                       txt(e.target) == 'self.transports']
-                ok = bool(wr)
-                val_ = _py_select(wr[-1], ev) if wr else None
-                if ok and label == 'None':
-                    # nothing configured: every valid transport
-                    ok = txt(val_ if val_ is not None else wr[-1]) in (
-                        'self.valid_transports', 'None or self.valid_transports')
-                elif ok:
-                    # configured: the valid names among the configured ones, as a list
-                    cand = val_ if val_ is not None else unawait(wr[-1])
-                    if isinstance(cand, ast.BoolOp) and isinstance(cand.op, ast.Or) and \
-                            txt(cand.values[-1]) == 'self.valid_transports':
-                        cand = cand.values[0]
-                    src = '[transports]' if label.startswith('one') else 'transports'
-                    ok = isinstance(cand, ast.ListComp) and len(cand.generators) == 1 and \
-                        txt(cand.generators[0].iter) == src and \
-                        txt(cand.elt) == txt(cand.generators[0].target) and \
-                        [txt(i) for i in cand.generators[0].ifs] == [
-                            '%s in self.valid_transports' % txt(cand.elt)]
+                ok = bool(wr) and transports_value_ok(wr[-1], ev, label,
+                                                      ('self.valid_transports',))
                 A.check(ok, rule + '.config', 'the constructor stores the configured transports '
                         'as the list of valid names among them (%s)' % label, A.site(fi),
                         key='ctor-config-transports', detail=[txt(x) for x in wr] + v.describe(),
@@ -2793,3 +2828,136 @@ def asgi_header_codec_rule(A, rule):
                 key='asgi-header-codec', detail=ast.unparse(n),
                 behaviour='a request whose Origin / Access-Control-Request-Headers value is '
                           'outside that codec makes make_response raise: no response at all')
+
+
+def get_result_rule(A, fl, rule):
+    """What a GET on an existing session answers: the packet list polled from the session goes
+    out as one payload (`_ok(packets, jsonp_index)`), anything else the session returned (the
+    response of a finished WebSocket) is passed through as it is."""
+    fi, srv, ps = request_paths(A, fl)
+    name = fl['name']
+    n = 0
+    for p in ps:
+        v = PV(p)
+        gi = [i for i, e in enumerate(v.ev) if e.kind == 'bind' and e.depth == 0 and
+              txt(e.target) == 'packets' and 'handle_get_request' in txt(e.expr)]
+        if not gi or p.outcome != 'return':
+            continue
+        after = v.ev[gi[0] + 1:]
+        if any(e.kind == 'exc' for e in after):
+            continue        # what happens after a failure is the error rules' business
+        pol = None
+        for e in after:
+            if e.kind == 'guard' and e.depth == 0:
+                a, pl = atom(e.expr, e.pol)
+                if a == 'isinstance(packets, list)':
+                    pol = pl
+                    break
+        rb = [txt(e.expr) for e in after if e.kind == 'bind' and e.depth == 0 and
+              txt(e.target) == 'r']
+        if pol is None:
+            A.violated(rule + '.get-result', '%s: the result of the session\'s GET handler is '
+                       'classified (packet list or finished response)' % name,
+                       A.site(fi, v.node(gi[0])), key='%s-get-result-unclassified' % name,
+                       detail=v.describe(60))
+            continue
+        n += 1
+        want = ('self._ok(packets, jsonp_index=jsonp_index)',
+                'self._ok(packets, jsonp_index=None)',
+                "self._ok(packets, jsonp_index=int(query['j'][0]))") if pol else ('packets',)
+        A.check(bool(rb) and rb[0] in want, rule + '.get-result',
+                '%s: polled packets are answered as one payload, a finished WebSocket response '
+                'is passed through' % name, A.site(fi, v.node(gi[0])),
+                key='%s-get-result' % name, detail=rb[:2] + v.describe(8),
+                behaviour='a poll is answered with something that is not a response / packets '
+                          'taken from the queue never reach the client')
+    A.floor(rule, '%s classified GET results' % name, n, 2)
+
+
+def monitor_default_rule(A, rule):
+    """Clients are monitored unless the application says otherwise: the constructor takes
+    monitor_clients when given and the class default otherwise, and that default is True."""
+    fi = A.func('base_server.BaseServer.__init__')
+    bs = A.model.cls('base_server.BaseServer')
+    sl = _config_slice(A, fi, 'monitor_clients', ['self', 'monitor_clients'])
+    for label, val, want in (('not given', Const(None), 'self._default_monitor_clients'),
+                             ('given', Kind('bool'), 'monitor_clients')):
+        asm = {'monitor_clients': val}
+        ps = [p for p in A.paths(A.enum(assume=assume_from(asm), follow_handlers=False), sl, bs)
+              if p.outcome == 'return']
+        A.floor(rule, 'constructor paths for monitor_clients %s' % label, len(ps), 1)
+        for p in ps:
+            v = PV(p)
+            w = [val_ for i, val_ in v.writes('self.start_service_task')]
+            A.check(w and w[-1] == want, rule + '.monitor-armed',
+                    'monitor_clients %s: start_service_task is %s' % (label, want), A.site(fi),
+                    key='ctor-monitor-%s' % label.replace(' ', '-'), detail=v.describe(),
+                    behaviour='the client monitor is not started: vanished clients are never '
+                              'dropped')
+    n = 0
+    for k in [bs] + [c for mi in A.model.modules.values() for c in mi.classes.values()
+                     if c is not bs and bs in A.model.mro(c)]:
+        v_ = k.attrs.get('_default_monitor_clients')
+        if v_ is not None:
+            n += 1
+            A.check(isinstance(v_, ast.Constant) and v_.value is True, rule + '.monitor-armed',
+                    '%s: clients are monitored by default' % k.qualname,
+                    '%s:%d' % (k.module.relpath, getattr(v_, 'lineno', 0)),
+                    key='monitor-default:%s' % k.name, detail=txt(v_),
+                    behaviour='the client monitor is not started: vanished clients are never '
+                              'dropped')
+    A.floor(rule, 'definitions of _default_monitor_clients', n, 1)
+
+
+def idle_guard_rule(A, fl, rule):
+    """The monitor idles (waits ping_timeout, then starts over) exactly when the table is empty;
+    the pass - and its division by the number of sessions - runs only when it is not."""
+    fi = A.func(fl['server'] + '._service_task')
+    n = 0
+    for node in ast.walk(fi.node):
+        if isinstance(node, ast.If):
+            a, pl = atom(node.test, True)
+            body = ' '.join(ast.unparse(x) for x in node.body)
+            if a in ('len(self.sockets) == 0', 'self.sockets', 'len(self.sockets)',
+                     '+len(self.sockets) > 0', '-len(self.sockets) >= 0') and \
+                    any(isinstance(x, ast.Continue) for st in node.body for x in ast.walk(st)):
+                n += 1
+                empty_true = (a == 'len(self.sockets) == 0' and pl) or \
+                    (a in ('self.sockets', 'len(self.sockets)') and not pl) or \
+                    (a == '+len(self.sockets) > 0' and not pl) or \
+                    (a == '-len(self.sockets) >= 0' and pl)
+                A.check(empty_true and 'wait' in body, rule + '.sweep',
+                        '%s: the monitor idles exactly when there is no session'
+                        % fl['name'], A.site(fi, node), key='%s-sweep-idle-guard' % fl['name'],
+                        detail=ast.unparse(node.test),
+                        behaviour='with sessions present the monitor only sleeps (nobody is ever '
+                                  'checked); without sessions it divides by zero and dies')
+    A.floor(rule, '%s idle branch of the monitor' % fl['name'], n, 1)
+
+
+def driver_wait_rule(A, rule):
+    """Every driver's WebSocket.wait() returns what the gateway delivered (some return path
+    yields a value computed from the received frame), not a constant."""
+    n = 0
+    for ci in A.resolver.driver_ws:
+        wait = None
+        for k in A.model.mro(ci):
+            if 'wait' in k.methods:
+                wait = k.methods['wait']
+                break
+        if wait is None:
+            continue
+        ps = [p for p in A.paths(A.enum(follow_handlers=True, loop_bound=1), wait, ci)
+              if p.outcome == 'return']
+        if not ps:
+            continue
+        n += 1
+        nonconst = [p for p in ps if p.value is not None and
+                    not isinstance(unawait(p.value), ast.Constant)]
+        A.check(bool(nonconst), rule + '.driver-wait',
+                '%s.wait() hands the received frame to the engine' % ci.qualname, A.site(wait),
+                key='driver-wait:%s' % ci.module.name.split('.')[-1],
+                detail=[txt(p.value) for p in ps][:4],
+                behaviour='every frame looks like a closed connection: no packet sent over '
+                          'WebSocket is ever dispatched with this driver')
+    A.floor(rule, 'driver wait() methods', n, 5)
